@@ -484,9 +484,10 @@ func (s Spec) Expect(b []byte) error {
 // generators
 
 type Opts struct {
-	Strict     bool   // C07 domain: strings without whitespace / quote characters
-	FlagsRoute bool   // force the flags route
-	Dir, File  string // scratch directory and file for watch-shaped rules
+	Strict     bool     // C07 domain: strings without whitespace / quote characters
+	FlagsRoute bool     // force the flags route
+	Dir, File  string   // scratch directory and file for watch-shaped rules
+	Links      []string // symbolic links in the scratch directory: to the directory, to the file, to nothing
 	KnowsSys   func(arch, name string) bool
 	KnowsArch  func(name string) bool
 	MaxFilters int
@@ -731,6 +732,7 @@ func GenSpec(t *rapid.T, o Opts) Spec {
 	if rapid.IntRange(0, 7).Draw(t, "watch") == 0 {
 		s.Watch = true
 		paths := []string{o.Dir, o.File, o.Dir + "/missing", "/", "/nonexistent-" + "verif", o.Dir + "/../" + filepath.Base(o.Dir), o.File + "/", o.Dir + "//x"}
+		paths = append(paths, o.Links...) // the kind of a watch follows symbolic links, as stat(2) does
 		s.Path = pick(t, "watchpath", paths)
 		s.Perms = rapid.StringMatching(`[rwxa]{0,5}`).Draw(t, "perms")
 		s.Keys = genKeys(t, o)
